@@ -1,5 +1,19 @@
-import MuduoVerif.Proofs.Timer
-/-! # C06 — timers never early, as often as scheduled, in deadline order, none lost -/
+import MuduoVerif.Proofs.TimerProps
+/-!
+# C06 — timers never early, as often as scheduled, in deadline order, none lost
+
+Property theorems only (lemmas: `Proofs/Timer*.lean`).  Every theorem is about `run ins` for **every** input list `ins`
+of the timer-engine model (`Model/Timer.lean`): adds from the loop thread (`In.add .loop`), from timer callbacks
+(`In.script` … `Act.add`, nested to any depth), from foreign threads (joined: `In.add .foreign`; split at the hand-over:
+`In.addAlloc` / `In.addFinish`), cancels from all three places (incl. self-cancel, same-batch cancel, stale and default
+ids), every clock reading (`In.now`) and every allocation address (`In.addr`) chosen by the environment, the timerfd
+firing whenever the environment decides (`In.expire`), loop iterations (`In.iter`); unbounded length.
+
+A callback run is recorded in the trace as `Ev.run`; `runRecs` projects the trace to the records
+`RunRec = (name, seq, k, addr, rep, first, delta, exp, now)` (newest first): the timer `seq` living at `addr`, created with
+the deadline `first`, repeat flag `rep` and interval `delta` (µs), runs for the `k`-th time, queued under the deadline
+`exp`, in a batch fired with the clock reading `now`.
+-/
 namespace MuduoVerif.C06
 open MuduoVerif.Timer MuduoVerif.Gen.Timer
 
@@ -16,5 +30,150 @@ theorem arm_value (s : TQ) (w : Time) :
 theorem arm_timespec (w n : Int) :
     (howMuchTimeFromNow w n).1 * 1000000 + (howMuchTimeFromNow w n).2 / 1000 = max (w - n) 100 := by
   rw [(timespec_exact w n).1, howMuchUs_eq]
+
+/-- **never_early**: every callback run, in every history, happens in a batch whose clock reading has reached the
+deadline the timer was queued under (`exp ≤ now`); that deadline is, for the first run, the one the timer was created
+with, and for the k-th run of a repeating timer at least the first deadline plus k-1 intervals. -/
+theorem never_early (ins : List In) (name seq k : Nat) (addr : Addr) (rep : Bool) (first : Time) (delta : Int)
+    (exp now clock : Time) (h : Ev.run name seq k addr rep first delta exp now clock ∈ (run ins).trace) :
+    exp ≤ now ∧ 1 ≤ k ∧ first + ((k : Int) - 1) * delta ≤ exp ∧ (k = 1 → exp = first) := by
+  obtain ⟨h1, h2, h3, _, h5⟩ := (run_gh ins).ev_ok _ (mem_runRecs h rfl)
+  exact ⟨h2, h1, h3, h5⟩
+
+/-- the deadline a timer is created with: `runAt(t)` → `t`; `runAfter(d)` / `runEvery(d)` → `now + d` with the clock
+reading the wrapper makes; the new cell starts with `exp = first`, no restarts -/
+theorem created_deadline (s : TQ) (name : Nat) (m : Mode) :
+    (∃ s', allocTimer s name m = (none, s')) ∨
+    ∃ s1 a c, allocTimer s name m = (some a, allocCell s1 a c) ∧ c.exp = c.first ∧ c.runs = 0 ∧ c.name = name ∧
+      c.seq = s1.numCreated + 1 := by
+  rcases allocTimer_spec s name m with ⟨s', h, _⟩ | ⟨s1, a, c, _, _, _, h4, h5, h6, h7, h8⟩
+  · exact Or.inl ⟨s', h⟩
+  · exact Or.inr ⟨s1, a, c, h8, h6, h5, h7, h4⟩
+
+/-- all runs of one timer (one sequence number) carry the same name, address, repeat flag, first deadline and interval -/
+theorem same_timer (ins : List In) (r r' : RunRec) (hr : r ∈ runRecs (run ins).trace) (hr' : r' ∈ runRecs (run ins).trace)
+    (hs : r.seq = r'.seq) :
+    r.name = r'.name ∧ r.addr = r'.addr ∧ r.rep = r'.rep ∧ r.first = r'.first ∧ r.delta = r'.delta :=
+  (run_gh ins).r_same r hr r' hr' hs
+
+/-- runs are numbered: the newest run of timer `seq` in any prefix of a history carries the number of runs of `seq` so far -/
+theorem numbering (ins : List In) : NumOK (runRecs (run ins).trace) := (run_gh ins).r_num
+
+/-- **once**: a one-shot timer (`runAt` / `runAfter`) runs at most once in any history: if some run of the timer `seq`
+is recorded with `rep = false`, it is the only run of `seq` -/
+theorem once (ins : List In) (r : RunRec) (hr : r ∈ runRecs (run ins).trace) (hrep : r.rep = false) :
+    cnt r.seq (runRecs (run ins).trace) = 1 := by
+  have hg := run_gh ins
+  have h1 : cnt r.seq (runRecs (run ins).trace) ≤ 1 := by
+    refine cnt_le_one_of_k r.seq _ hg.r_num ?_
+    intro r' hr' hs
+    have hrep' : r'.rep = false := by rw [← (hg.r_same r hr r' hr' hs.symm).2.2.1]; exact hrep
+    exact (hg.ev_ok r' hr').2.2.2.1 hrep'
+  have h2 := cnt_pos_of_mem r.seq _ hr rfl
+  omega
+
+/-- ... and exactly once when it is due in a fired batch: in a state reached by any history, with the timerfd readable,
+the next loop iteration runs every timer whose deadline is ≤ the clock reading `handleRead` makes (whatever callbacks
+running earlier in the same batch do, including cancelling it), and that run is a new one -/
+theorem fires_due (ins : List In) (hr : (run ins).readable = true) (e : Time × Addr) (he : e ∈ (run ins).timers)
+    (hle : e.1 ≤ (readNow (run ins)).1) :
+    recOf (cellAt (run ins) e.2) e (readNow (run ins)).1 ∈ runRecs (run (ins ++ [.iter])).trace ∧
+    recOf (cellAt (run ins) e.2) e (readNow (run ins)).1 ∉ runRecs (run ins).trace := by
+  refine ⟨by rw [run_snoc]; exact Timer.fires_due (run_top ins) hr he hle, ?_⟩
+  intro hm
+  obtain ⟨c, hc, _, _⟩ := (run_top ins).wf.t_live e he
+  have h1 := k_le_cnt (run_gh ins).r_num hm
+  have h2 := (run_gh ins).r_cnt e.2 c hc
+  rw [cellAt_eq hc] at h1
+  simp only [recOf, List.not_mem_nil, if_false] at h1 h2
+  omega
+
+/-- **batch_order**: a loop iteration runs exactly the timers that are due at the clock reading `handleRead` makes, each
+once, in the order of `timers_`, i.e. by (deadline, address); no timer that is due is left out -/
+theorem batch_order (ins : List In) :
+    runRecs (run (ins ++ [.iter])).trace =
+      (if (run ins).readable then
+        (((run ins).timers.takeWhile (isExpired (readNow (run ins)).1)).map
+          (fun e => recOf (cellAt (run ins) e.2) e (readNow (run ins)).1)).reverse
+       else []) ++ runRecs (run ins).trace ∧
+    ((run ins).timers.takeWhile (isExpired (readNow (run ins)).1)).Pairwise entryLt ∧
+    (∀ e ∈ (run ins).timers.takeWhile (isExpired (readNow (run ins)).1), e ∈ (run ins).timers ∧ e.1 ≤ (readNow (run ins)).1) ∧
+    (∀ e ∈ (run ins).timers, e.1 ≤ (readNow (run ins)).1 → e ∈ (run ins).timers.takeWhile (isExpired (readNow (run ins)).1)) := by
+  refine ⟨by rw [run_snoc]; exact iter_runs (run_top ins), batch_sorted (run_top ins).wf _, ?_, ?_⟩
+  · intro e he
+    exact ⟨(List.takeWhile_sublist _).subset he, batch_due _ he⟩
+  · intro e he hle
+    exact mem_batch_of_due (run_top ins).wf he hle
+
+/-- no step other than a loop iteration runs a callback -/
+theorem only_iter_runs (ins : List In) (i : In) (hi : i ≠ .iter) :
+    runRecs (run (ins ++ [i])).trace = runRecs (run ins).trace := by
+  rw [run_snoc]; exact step_runs _ i hi
+
+/-- **sets_agree**: after every history `timers_` and `activeTimers_` hold the same timers (every entry of one has its
+live `Timer` and its counterpart in the other), `timers_` is strictly sorted by (deadline, address) (so: no duplicates),
+`activeTimers_` has no duplicates, and both have the same size (the `assert`s of TimerQueue.cc) -/
+theorem sets_agree (ins : List In) :
+    (∀ e ∈ (run ins).timers, ∃ c, (run ins).heap e.2 = some c ∧ c.exp = e.1 ∧ (e.2, c.seq) ∈ (run ins).active) ∧
+    (∀ p ∈ (run ins).active, ∃ c, (run ins).heap p.1 = some c ∧ c.seq = p.2 ∧ (c.exp, p.1) ∈ (run ins).timers) ∧
+    (run ins).timers.Pairwise entryLt ∧ (run ins).timers.Nodup ∧ (run ins).active.Nodup ∧
+    (run ins).timers.length = (run ins).active.length :=
+  have h := (run_top ins).wf
+  ⟨h.t_live, h.a_live, h.sorted, h.timers_nodup, h.a_nodup, h.length_eq⟩
+
+/-- ... and also at every point inside an expiry batch (`WFp s B L` with the batch `B`): the invariant is preserved by
+every function of the engine, e.g. by a callback's `cancel` -/
+theorem sets_agree_in_batch (s : TQ) (B : List (Time × Addr)) (L : List Addr) (h : WFp s B L) (act : Act) :
+    WFp (execAct s act) B L ∧ (execAct s act).timers.length = (execAct s act).active.length :=
+  ⟨h.execAct act, (h.execAct act).length_eq⟩
+
+/-- **armed**: in every history in which every deadline that was registered or restarted is a valid `Timestamp`
+(> 0 µs since the epoch; `ValidTr`), whenever the loop may go back to `poll` with a pending timer, the timerfd is
+readable, or armed for a time no later than the earliest pending deadline — or 100 µs after the moment it was armed,
+the floor of `howMuchTimeFromNow`.  This holds after any insertion (a new earliest timer, a deadline already in the
+past, from inside a callback, from a foreign thread), any expiry batch and any cancellation. -/
+theorem armed (ins : List In) (hv : ValidTr (run ins).trace) :
+    (∀ e ∈ (run ins).timers, 0 < e.1) ∧
+    ((run ins).timers ≠ [] → (run ins).readable = true ∨
+      ∃ a, (run ins).alarm = some a ∧ a ≤ max (firstExp (run ins).timers) ((run ins).armedAt + 100)) :=
+  ⟨(run_armed ins hv).1, (run_armed ins hv).2 rfl⟩
+
+/-- the excluded branch: when the earliest deadline is not a valid `Timestamp`, `reset()` leaves the timerfd alone -/
+theorem armed_excluded_branch (ins : List In) (e : Time × Addr) (r : List (Time × Addr))
+    (ht : (run ins).timers = e :: r) (he : e.1 ≤ 0) : rearm (run ins) = run ins :=
+  rearm_invalid (run_top ins).wf ht he
+
+/-- ... and then `armed` can fail: a timer with the deadline -5 µs, the clock at -10 µs: after the timerfd fired early
+the queue is not re-armed, the timer is pending and never runs (this needs a clock before 1970) -/
+theorem armed_needs_valid_deadlines :
+    ¬ ∀ ins : List In, (run ins).timers ≠ [] → (run ins).readable = true ∨
+      ∃ a, (run ins).alarm = some a ∧ a ≤ max (firstExp (run ins).timers) ((run ins).armedAt + 100) := by
+  intro h
+  have h1 : (run [.addr 16, .now (-10), .add .loop 1 (.at (-5)), .expire, .now (-10), .iter]).timers ≠ [] := by decide
+  have h2 : (run [.addr 16, .now (-10), .add .loop 1 (.at (-5)), .expire, .now (-10), .iter]).readable = false := by decide
+  have h3 : (run [.addr 16, .now (-10), .add .loop 1 (.at (-5)), .expire, .now (-10), .iter]).alarm = none := by decide
+  rcases h _ h1 with h4 | ⟨a, h4, _⟩
+  · rw [h2] at h4; cases h4
+  · rw [h3] at h4; cases h4
+
+/-- **eventually_runs**, under `EnvTimerfdFires`: in a state reached by any history with valid deadlines, for any pending
+timer `e`: once the clock has reached its deadline (`In.now t`, `e.1 ≤ t`) and the kernel makes the timerfd readable
+(`In.expire` — by `armed` the fd is armed or already readable, so this is the environment's only obligation), the next
+loop iteration runs it. -/
+theorem eventually_runs (ins : List In) (hv : ValidTr (run ins).trace) (hn : (run ins).nows = []) (e : Time × Addr)
+    (he : e ∈ (run ins).timers) (t : Time) (hle : e.1 ≤ t) :
+    recOf (cellAt (run ins) e.2) e t ∈ runRecs (run (ins ++ [.now t, .expire, .iter])).trace := by
+  rw [run_append]
+  exact eventually_runs_aux (run_top ins) (run_armed ins) hv hn he hle
+
+/-- the hypotheses of `armed` / `eventually_runs` / `fires_due` are satisfiable by a non-trivial history: a repeating and
+a one-shot timer, a callback adding a third one, a foreign add; the repeating timer runs twice, in order -/
+example :
+    ValidTr (run [.addr 16, .addr 32, .addr 48, .now 1000, .script 1 none (.add 3 (.after 10)), .add .loop 1 (.every 50 true),
+      .add .foreign 2 (.at 1020), .iter, .expire, .now 1060, .now 1061, .now 1061, .iter, .expire, .now 1200, .iter]).trace ∧
+    (runRecs (run [.addr 16, .addr 32, .addr 48, .now 1000, .script 1 none (.add 3 (.after 10)), .add .loop 1 (.every 50 true),
+      .add .foreign 2 (.at 1020), .iter, .expire, .now 1060, .now 1061, .now 1061, .iter, .expire, .now 1200, .iter]).trace).map
+        (fun r => (r.seq, r.k, r.exp, r.now)) = [(1, 2, 1110, 1200), (3, 1, 1071, 1200), (1, 1, 1050, 1060), (2, 1, 1020, 1060)] := by
+  constructor <;> decide
 
 end MuduoVerif.C06
